@@ -90,23 +90,11 @@ out:
     return ret;
 
 out_error:
+    /*
+     * The caller (liberasurecode_encode) owns encoded_data / encoded_parity and
+     * the fragments stored in them so far; it releases them on failure.
+     */
     printf ("ERROR in encode\n");
-    if (encoded_data) {
-        for (i = 0; i < k; i++) {
-            if (encoded_data[i])
-                free_fragment_buffer(encoded_data[i]);
-        }
-        check_and_free_buffer(encoded_data);
-    }
-
-    if (encoded_parity) {
-        for (i = 0; i < m; i++) {
-            if (encoded_parity[i])
-                free_fragment_buffer(encoded_parity[i]);
-        }
-        check_and_free_buffer(encoded_parity);
-    }
-
     goto out;
 }
 
